@@ -112,6 +112,13 @@ def cases(tier, rng, run):
                 z = ";".join(f"{a}:{0 if a == k else b}" for a, b in full.items())
                 if pyref.feasible(e, parse_scope(z)):
                     seq.append(z)
+                if len(full) >= 2:
+                    # the same sizes under other names / in another order (a result remembered for a scope is for THAT scope)
+                    ks, vs = list(full), list(full.values())
+                    for perm in (dict(zip(ks, vs[1:] + vs[:1])), dict(reversed(list(full.items()))), dict(zip(ks, reversed(vs)))):
+                        ps = ";".join(f"{a}:{b}" for a, b in perm.items())
+                        if pyref.feasible(e, parse_scope(ps)):
+                            seq.append(ps)
             rng.shuffle(seq)
             seq.append(sc)
             out.append(Case(f"EVALSEQ\t{e}\t{'|'.join(seq)}", "seq"))
